@@ -287,14 +287,22 @@ type env struct {
 	pending sync.Map
 }
 
-func newEnv(mode string) *env {
+func newEnv(mode string) *env { return newEnvPool(mode, false) }
+
+// newEnvPool: with rawPool gorm gets the *sql.DB itself (its TxBeginner / PrepareContext paths) instead
+// of the counting and parking wrapper.
+func newEnvPool(mode string, rawPool bool) *env {
 	e := &env{mode: mode}
 	e.rec = recdrv.NewMemory()
 	e.sqlDB = e.rec.DB()
 	e.ctl = &controller{badconn: map[int]int{}}
 	e.pool = &pool{DB: e.sqlDB, ctl: e.ctl}
 	open := func(prepare bool) *gorm.DB {
-		db, err := gorm.Open(vdialect.NewSQLite(e.pool, false), &gorm.Config{PrepareStmt: prepare, Logger: logger.Discard, SkipDefaultTransaction: true})
+		var cp gorm.ConnPool = e.pool
+		if rawPool {
+			cp = e.sqlDB
+		}
+		db, err := gorm.Open(vdialect.NewSQLite(cp, false), &gorm.Config{PrepareStmt: prepare, Logger: logger.Discard, SkipDefaultTransaction: true})
 		if err != nil {
 			panic("harness: open: " + err.Error())
 		}
@@ -1185,6 +1193,7 @@ func TestC14BoundedPool(t *testing.T) {
 	rapid.Check(t, func(rt *rapid.T) {
 		mode := rapid.SampledFrom([]string{"config", "session"}).Draw(rt, "mode")
 		maxOpen := rapid.IntRange(1, 2).Draw(rt, "maxOpen")
+		rawPool := rapid.Bool().Draw(rt, "rawPool")
 		via := 0
 		if mode == "session" {
 			via = 1
@@ -1196,7 +1205,7 @@ func TestC14BoundedPool(t *testing.T) {
 		n := rapid.IntRange(1, 6).Draw(rt, "len")
 		var prog []Op
 		for i := 0; i < n; i++ {
-			k := rapid.SampledFrom([]string{"q", "q", "e", "tx", "tx", "conn", "reset"}).Draw(rt, fmt.Sprintf("op%d", i))
+			k := rapid.SampledFrom([]string{"q", "q", "e", "tx", "tx", "conn", "reset", "badbegin"}).Draw(rt, fmt.Sprintf("op%d", i))
 			o := Op{Kind: k, Via: via}
 			switch k {
 			case "q":
@@ -1224,8 +1233,8 @@ func TestC14BoundedPool(t *testing.T) {
 			}
 			prog = append(prog, o)
 		}
-		desc := fmt.Sprintf("mode=%s maxOpen=%d prog=%v", mode, maxOpen, prog)
-		e := newEnv(mode)
+		desc := fmt.Sprintf("mode=%s maxOpen=%d rawPool=%v prog=%v", mode, maxOpen, rawPool, prog)
+		e := newEnvPool(mode, rawPool)
 		defer e.close()
 		e.sqlDB.SetMaxOpenConns(maxOpen)
 		ctx := context.Background() // no goroutine id: nothing parks
@@ -1302,6 +1311,32 @@ func TestC14BoundedPool(t *testing.T) {
 					msg = runBlock(e.handle(via, ctx), o)
 				case "reset":
 					e.cache(via).Reset()
+				case "badbegin":
+					// Begin under a context that is already cancelled fails; the usual
+					// `tx := db.Begin(); defer tx.Rollback()` then calls Rollback (or Commit) on that handle:
+					// an error like in non-prepared mode, never a panic
+					msg = func() (m string) {
+						defer func() {
+							if p := recover(); p != nil {
+								m = fmt.Sprintf("Rollback/Commit after a failed Begin panicked: %v (non-prepared mode returns an error)", p)
+							}
+						}()
+						cctx, cancel := context.WithCancel(ctx)
+						cancel()
+						tx := e.handle(via, cctx).Begin()
+						if tx.Error == nil {
+							tx.Rollback()
+							return "Begin under a cancelled context returned no error"
+						}
+						if err := tx.Rollback().Error; err == nil {
+							return "Rollback after a failed Begin returned no error"
+						}
+						tx2 := e.handle(via, cctx).Begin()
+						if err := tx2.Commit().Error; err == nil {
+							return "Commit after a failed Begin returned no error"
+						}
+						return ""
+					}()
 				}
 				if msg != "" {
 					done <- verdict{msg}
@@ -1317,7 +1352,12 @@ func TestC14BoundedPool(t *testing.T) {
 				hasNested = hasNested || s.Kind == "tx"
 			}
 		}
-		cl := []string{"mode:" + mode, fmt.Sprintf("pool:%d", maxOpen)}
+		cl := []string{"mode:" + mode, fmt.Sprintf("pool:%d", maxOpen), fmt.Sprintf("raw-sql.DB-as-pool:%v", rawPool)}
+		for _, o := range prog {
+			if o.Kind == "badbegin" {
+				cl = append(cl, "op:rollback/commit-after-failed-begin")
+			}
+		}
 		if hasBlockRow {
 			cl = append(cl, "block-member:Row()")
 		}
